@@ -123,7 +123,8 @@ static void checkAltered(Case &c, const Scn &s, int path, const Bytes &orig, con
     if (!got.delivered) { c.cls("altered:rejected"); return; }
     bool identical = got == origContent;
     if (s.ver == 1 && flipPos >= 0 && v1Unauthenticated(orig, (size_t)flipPos) && identical) { c.cls("altered:v1-unauthenticated-byte-identical-content"); return; }
-    (void)altered;
+    // several flips: the same allowance when EVERY octet that differs lies outside the range the v1 MAC covers (outer element header, header of the MAC element) and the content is identical
+    if (s.ver == 1 && identical && altered.size() == orig.size()) { bool allOutside = true, any = false; for (size_t i = 0; i < orig.size(); i++) if (orig[i] != altered[i]) { any = true; if (!v1Unauthenticated(orig, i)) { allOutside = false; break; } } if (any && allOutside) { c.cls("altered:v1-unauthenticated-byte-identical-content"); return; } }
     VF_FAIL(c, std::string("C06:altered-response-delivered:") + kKindName[s.kind] + ":v" + num(s.ver) + ":" + kPathName[path] + ":" + what.substr(0, what.find(' ')), "content was delivered from an altered response (" + what + "), " + (identical ? "identical to" : "DIFFERENT from") + " the original content; " + kKindName[s.kind] + " v" + num(s.ver) + " via " + kPathName[path]);
 }
 
@@ -170,7 +171,7 @@ void harness_case(Dec &d, Case &c) {
             Content w2; Bytes sd2 = seedBytes; sd2[0] ^= 0x55; Dec d2(sd2.data(), sd2.size()); Bytes other = buildReply(s, d2, rid, w2, "", -1, 0, true, true); const AlgInfo *ai = algInfo(s.macAlg); size_t dl = ai->digestLen; what = "splice (MAC of another response)";
             if (other.size() > dl && a.size() > dl) std::copy(other.end() - (long)dl, other.end(), a.end() - (long)dl); if (a == o) what = "unmodified"; break; }
         }
-        altered = a; return a; };
+        if (a == o) what = "unmodified"; /* e.g. two flips of the same bit: the bytes are the original ones */ altered = a; return a; };
     got = deliver(s, path, mutated, want, problem);
     c.desc = std::string(kKindName[s.kind]) + " v" + num(s.ver) + " mac=" + num(s.macAlg) + " keylen=" + num((long long)s.key.size()) + " via " + kPathName[path] + ": " + what; c.nontrivial = true;
     c.cls(std::string("kind:") + kKindName[s.kind]); c.cls(std::string("path:") + kPathName[path]); c.cls("pdu:v" + num(s.ver)); c.cls("response:" + what.substr(0, what.find(" at")).substr(0, what.find(" to")));
